@@ -629,7 +629,7 @@ def gen_scenarios(rng, thorough):
         lists = [()] + [(a,) for a in ALPHABET] + list(itertools.product(ALPHABET, repeat=2))
         for toks in lists:
             yield 'mech-exhaustive', scenario(rand_config(rng), ' '.join(toks), rng.choice(CHAN_BOUNDARY), rng.choice(FRAME_BOUNDARY))
-    for _ in range(600 if thorough else 120):
+    for _ in range(6000 if thorough else 500):
         yield 'mech-random', scenario(rand_config(rng), rand_mech_list(rng), rng.choice(CHAN_BOUNDARY + [rng.randint(0, 65535)]),
                                       rng.choice(FRAME_BOUNDARY + [rng.randint(0, 300000)]), noise=rand_noise(rng),
                                       sched=rand_schedule(rng))
@@ -642,13 +642,13 @@ def gen_scenarios(rng, thorough):
                     if code is not None:
                         r.update({'code': code, 'text': 'REFUSED'})
                     yield 'refusal-grid', scenario(rand_config(rng), mech, rng.choice(CHAN_BOUNDARY), rng.choice(FRAME_BOUNDARY), refuse=r)
-    for _ in range(500 if thorough else 90):
+    for _ in range(5000 if thorough else 400):
         yield 'refusal-random', scenario(rand_config(rng), rand_mech_list(rng), rng.choice(CHAN_BOUNDARY), rng.choice(FRAME_BOUNDARY),
                                          refuse=rand_refuse(rng), noise=rand_noise(rng), sched=rand_schedule(rng))
     for _ in range(6 if thorough else 2):
         yield 'connect-refused', scenario(rand_config(rng), 'PLAIN', 0, 0, connect_ok=False)
     # 4. malformed stream: odd separators, non-UTF-8, empty offers
-    for _ in range(400 if thorough else 80):
+    for _ in range(4000 if thorough else 400):
         k = rng.random()
         if k < 0.55:
             toks = [rng.choice(ALPHABET + EXTRA_TOKENS) for _ in range(rng.randint(1, 4))]
@@ -715,7 +715,7 @@ def check_tune_direct(rep, rng, thorough, lines, expect, meta):
 def check_mech_direct(rep, rng, thorough, lines, expect, meta):
     """`_send_start_ok` and `str.split()` on their own, including texts pamqp would hand over as str"""
     samples = []
-    for _ in range(1500 if thorough else 250):
+    for _ in range(12000 if thorough else 1500):
         k = rng.random()
         if k < 0.5:
             toks = [rng.choice(ALPHABET + EXTRA_TOKENS + [rand_text(rng, 1, 4)]) for _ in range(rng.randint(0, 4))]
